@@ -77,14 +77,16 @@ func checkParams(funcDef interface{}, impTyp reflect.Type,
 	if returns != nil && len(returns) < impTyp.NumOut() {
 		return erro.NewReturnsNotMatchError(funcDef, len(returns), impTyp.NumOut())
 	}
+	// 至少需要的参数个数: 不含 receiver; 可变参数可以一个都不传
+	required := impTyp.NumIn()
 	if isMethod {
-		if args != nil && len(args)+1 < impTyp.NumIn() {
-			return erro.NewArgsNotMatchError(funcDef, len(args), impTyp.NumIn()-1)
-		}
-	} else {
-		if args != nil && len(args) < impTyp.NumIn() {
-			return erro.NewArgsNotMatchError(funcDef, len(args), impTyp.NumIn())
-		}
+		required--
+	}
+	if impTyp.IsVariadic() {
+		required--
+	}
+	if args != nil && len(args) < required {
+		return erro.NewArgsNotMatchError(funcDef, len(args), required)
 	}
 	return nil
 }
